@@ -415,11 +415,99 @@ func limitSpellings(x *explore.X) {
 	x.Outcome(fmt.Sprintf("%s/%v", suf, want > 0))
 }
 
+// extraListeners (round 9): a proxy with a main listener and one extra listener (HTTPProxyConfig.ExtraListeners), each
+// with its own pair of limits. A transfer through one listener is bound by that listener's limit for that direction
+// and by nothing else: a listener whose limit is 0 does not throttle, whatever the other listener is configured with.
+func extraListeners(x *explore.X) {
+	lim := []int64{0, 1 * MiB, 16 * 1024}
+	mr, mw := lim[x.ChooseFree("main-read-limit", 3)], lim[x.ChooseFree("main-write-limit", 3)]
+	er, ew := lim[x.ChooseFree("extra-read-limit", 3)], lim[x.ChooseFree("extra-write-limit", 3)]
+	kind := []string{"download", "upload"}[x.ChooseFree("transfer", 2)]
+	via := x.ChooseFree("through-listener", 2) // 0 main, 1 extra
+	const extraAddr = "proxy.test:3129"
+	opts := world.Options{ReadLimit: mr, WriteLimit: mw, ShutdownTimeout: 48 * time.Hour}
+	opts.Tweak = func(cfg *forwarder.HTTPProxyConfig, _ *forwarder.HTTPTransportConfig) {
+		lc := forwarder.NamedListenerConfig{Name: "extra"}
+		lc.Address = extraAddr
+		lc.ReadLimit, lc.WriteLimit = forwarder.SizeSuffix(er), forwarder.SizeSuffix(ew)
+		cfg.ExtraListeners = append(cfg.ExtraListeners, lc)
+	}
+	w, err := world.Start(opts)
+	if err != nil {
+		x.Failf("harness/start", "%v", err)
+		return
+	}
+	org, _ := w.Hop("origin.test:80", nil)
+	addr, r, wl := w.Addr, mr, mw
+	if via == 1 {
+		addr, r, wl = extraAddr, er, ew
+	}
+	cc, err := w.Net.DialFrom("client-x.test", addr)
+	if err != nil {
+		x.Failf("harness/dial", "listener %s: %v", addr, err)
+		return
+	}
+	world.Settle(0)
+	c := &world.Peer{C: cc}
+	afterSecondSample = nil
+	size := 4*MiB + 256*1024
+	horizon := 10*time.Minute + 2*time.Duration(float64(size)/float64(16*1024)*float64(time.Second))
+	what := fmt.Sprintf("main listener read-limit=%d write-limit=%d, extra listener read-limit=%d write-limit=%d, %s through the %s listener", mr, mw, er, ew, kind, []string{"main", "extra"}[via])
+	x.Logf("%s", what)
+	stepFor := func(limit int64) time.Duration {
+		if limit == 0 {
+			return time.Second
+		}
+		return max(time.Duration(float64(size)/float64(limit)*float64(time.Second)/64), time.Millisecond)
+	}
+	switch kind {
+	case "download":
+		c.SendNoWait([]byte("GET http://origin.test/d HTTP/1.1\r\nHost: origin.test\r\n\r\n"))
+		world.Settle(0)
+		org.Poll()
+		if len(org.Conns) != 1 {
+			x.Failf("harness/forward", "%s: origin got %d connections, want 1", what, len(org.Conns))
+			return
+		}
+		down := h1x.Pattern(size, 3)
+		head := []byte(fmt.Sprintf("HTTP/1.1 200 OK\r\nContent-Length: %d\r\n\r\n", size))
+		org.Raw[0].SendNoWait(append(append([]byte{}, head...), down...))
+		tr := trace(func() int64 { return int64(len(c.Recv())) }, int64(len(head)+size), stepFor(r), horizon)
+		checkBound(x, what+" [bytes received by the client]", tr, r, 1)
+		rs := httpwire.ParseResponses(c.Recv(), []string{"GET"}, false)
+		if len(rs.Msgs) != 1 || !bytes.Equal(rs.Msgs[0].Body, down) {
+			x.Failf("data-altered", "%s: the client did not receive the origin's %d bytes intact (state %q, msgs %d)", what, size, rs.State, len(rs.Msgs))
+		}
+	case "upload":
+		up := h1x.Pattern(size, 8)
+		head := []byte(fmt.Sprintf("POST http://origin.test/u HTTP/1.1\r\nHost: origin.test\r\nContent-Length: %d\r\n\r\n", size))
+		c.SendNoWait(append(append([]byte{}, head...), up...))
+		tr := trace(func() int64 { return c.C.Status().PeerRead }, int64(len(head)+size), stepFor(wl), horizon)
+		checkBound(x, what+" [bytes accepted from the client]", tr, wl, 1)
+		msgs, conns, problem := org.Next()
+		if len(msgs) != 1 || !bytes.Equal(msgs[0].Body, up) {
+			x.Failf("data-altered", "%s: the origin received %d complete requests (%s)", what, len(msgs), problem)
+		} else {
+			org.Conns[conns[0]].Send([]byte("HTTP/1.1 200 OK\r\nContent-Length: 0\r\n\r\n"))
+		}
+	}
+	x.Outcome(fmt.Sprintf("%s r=%d w=%d via=%d", kind, r, wl, via))
+	c.Close()
+	if err := w.Stop(); err != nil {
+		x.Failf("shutdown", "%s: %v", what, err)
+	}
+	org.Close()
+	if l := world.Leaks(); l != "" {
+		x.Failf("goroutine-leak", "%s", l)
+	}
+}
+
 func TestC20(t *testing.T) {
 	s := explore.NewSuite(t, "C20", "model_checking",
 		"(read-limit, write-limit) in {0, 1 MiB/s, 64 MiB/s, 300 MiB/s, 16 KiB/s, 3000 B/s}^2 (the last two are smaller than one relay buffer / one bufio buffer) x transfer {download, upload, CONNECT tunnel both ways} of 12 MiB per connection (burst + 256 KiB with a limit below 1 MiB/s) x {1,2,3} connections sharing the listener x {no shutdown, graceful shutdown requested while the transfer is under way} x {no client-side time limits, read-timeout 2 s + write-timeout 3 s (bound only)} x (tunnels) {client keeps sending, client half-closes before the download} x sender writes {one piece, pieces of 1000 octets} x sockets {plain, offering ReadFrom/WriteTo like *net.TCPConn} [full product]; on the virtual clock the receiving side's (time, cumulative bytes) is sampled 64+ times per transfer (states = samples) and the token-bucket bound bytes <= burst + rate x dt + one 64 KiB write per connection is checked between EVERY pair of samples, plus minimum duration, zero virtual time for an unlimited direction, and byte-for-byte identity of the data; plus (limit-spellings) integer part(6) x fraction(11, incl. leading zeros) x suffix(14) of the option value through SizeSuffix.Set compared with exact rational arithmetic")
 	s.Assume = []string{"virtual clock of testing/synctest drives golang.org/x/time/rate", "documented slack: the limiter is charged after each write, so one write (<= 64 KiB) per connection may exceed the bucket", "simnet receive buffers are unbounded, so the only throttle is the limiter under test"}
 	s.Add(explore.Scenario{Name: "limit-spellings", Run: limitSpellings})
+	s.Add(explore.Scenario{Name: "extra-listeners", Remote: true, Run: func(x *explore.X) { world.Run(t, x, func() { extraListeners(x) }) }})
 	s.Add(explore.Scenario{Name: "limits", Remote: true, Run: func(x *explore.X) { world.Run(t, x, func() { scenario(x) }) }})
 	s.Main()
 }
